@@ -12,12 +12,9 @@ let infp_of s = if s = "lit" then inf_none else inf_sentinel !sentinel
 (* ---- replay of a recorded decision trace of QSexact_solver through the extracted driver model ----
    Q <id> trace <algo P|D> <ebasis 0|1> <n> (<event> <level> <value>)*n
    answer: A <id> <rval 0|1> <status code> <exit label> *)
-let lpstat_of_int i = match i with
-  | 1 -> StOptimal | 2 -> StInfeasible | 3 -> StUnbounded | 9 -> StObjLimit | 6 -> StUnsolved | 0 -> StZero
-  | k -> StOther (coqz_of_z (BZ.of_int k))
-let int_of_lpstat s = match s with
-  | StOptimal -> 1 | StInfeasible -> 2 | StUnbounded -> 3 | StObjLimit -> 9 | StUnsolved -> 6 | StZero -> 0
-  | StOther k -> BZ.to_int (z_of_coqz k)
+(* numeric codes come from the headers through Gen/Consts.v -> LP/Codes.v *)
+let lpstat_of_int i = lpstat_of_code (coqz_of_z (BZ.of_int i))
+let int_of_lpstat s = BZ.to_int (z_of_coqz (code_of_lpstat s))
 let string_of_exit e = match e with
   | ExitTest l -> Printf.sprintf "test%d" (int_of_nat l)
   | ExitRetest l -> Printf.sprintf "retest%d" (int_of_nat l)
@@ -49,7 +46,7 @@ let replay_trace (algo : string) (eb : bool) (ev : (int * int * int) list) =
       value (if qeq_bool k (qi 0) then 8 else 9) l 0 = 1
     | _ -> false in
   let ebasis = if eb then Some (lvl_basis 0) else None in
-  exact_solver_gen otest itest float_solve basis_status ebasis (nat_of_int 12) (if algo = "D" then DualS else PrimalS)
+  exact_solver_gen otest itest float_solve basis_status ebasis max_levels (if algo = "D" then DualS else PrimalS)
 
 (* ---- C15: apply a verified reformulation to a user LP -------------------------------------
    Q <id> xform <kind> <args...> ; ULP block
@@ -154,7 +151,7 @@ let () =
            let (cs, rs) = (match expect ic "BAS" with [ c; r ] -> (c, r) | _ -> failwith "BAS") in
            let x = qlist (expect ic "X") in
            let y = qlist (expect ic "Y") in
-           let b = { cstat = bstats_of_string cs; rstat = bstats_of_string rs } in
+           let b = { cstat = cstats_of_string cs; rstat = rstats_of_string rs } in
            (match opt_test p (nat_of_int ns) b x y with
             | None -> Printf.printf "A %s none\n" id
             | Some s -> Printf.printf "A %s some %s | %s | %s | %s | %s\n" id (string_of_q s.sval) (qs_join s.sx) (qs_join s.spi) (qs_join s.sslack) (qs_join s.src))
